@@ -81,8 +81,61 @@ def run(ctx):
             f.write(line.replace('"case":0', '"case":%d' % len(cases)))
     verdict, vs = ctx.validate("C14Trace.tla", "C14_trace.cfg", trace)
     nviol, known = H.report(ctx, verdict["bad"], lambda i: cases[i] if i < len(cases) else {"hash": "sweep"}, trace)
+
+    # binding self-test: one recorded field of the projection altered must be objected to
+    def _proj(evs, need):
+        for e in evs:
+            if e.get("proj") == "ok" and e.get("res") == "ok" and need(e):
+                return e
+        return None
+
+    def _drop_record(evs):
+        e = _proj(evs, lambda e: len(e.get("recs", [])) >= 2)
+        if e is None:
+            return None
+        e["recs"] = e["recs"][:-1]
+        e["nrecs"] = e["nroot"] = e["total"] = len(e["recs"])
+        return evs
+
+    def _header_count(evs):
+        e = _proj(evs, lambda e: e.get("nrecs", 0) >= 1)
+        if e is None:
+            return None
+        e["total"] += 1
+        return evs
+
+    def _lookup_other_id(evs):
+        e = _proj(evs, lambda e: any(f.get("found") for f in e.get("find", {}).values()))
+        if e is None:
+            return None
+        for f in e["find"].values():
+            if f.get("found"):
+                f["id"] = "x" + str(f["id"]) if isinstance(f["id"], str) else f["id"] + 1
+                break
+        return evs
+
+    def _absent_found(evs):
+        e = _proj(evs, lambda e: any(not f.get("found") for f in e.get("find", {}).values()))
+        if e is None:
+            return None
+        for f in e["find"].values():
+            if not f.get("found"):
+                f["found"] = f["has"] = True
+                break
+        return evs
+
+    def _hash_differs(evs):
+        for e in evs:
+            if e.get("op") == "hash":
+                e["lib"] = "0" + str(e["lib"])
+                return evs
+        return None
+    selftest = H.binding_selftest(ctx, "C14Trace.tla", "C14_trace.cfg", trace,
+                                  [("record-dropped", _drop_record), ("header-count-altered", _header_count), ("lookup-id-altered", _lookup_other_id),
+                                   ("absent-name-found", _absent_found)], max_cases=800)
     nkeys = int(hout.split("keys=")[1].split()[0])
     cov = {
+        "binding_selftest": selftest,
         "states": mc.distinct + gr.distinct, "transitions": mc.generated + gr.generated,
         "traces_validated_against_impl": verdict["stats"]["cases"],
         "samples": [cases[0], cases[ngen // 2], {"cfg": cases[ngen]["cfg"], "ops": cases[ngen]["ops"][:12], "ops_total": len(cases[ngen]["ops"])}],
